@@ -37,7 +37,7 @@ let string_of_event = function
   | ENotify NStart -> Some "notify:start" | ENotify NSuccess -> Some "notify:success" | ENotify NFailure -> Some "notify:failure"
   | ESched t -> Some (Printf.sprintf "sched:%d" (int_of_nat t)) | EExec t -> Some (Printf.sprintf "exec:%d" (int_of_nat t))
   | EHEnter g -> Some (Printf.sprintf "hin:%d" (int_of_nat g)) | EHLeave -> Some "hout"
-  | EAccept -> Some "accept" | ESpawn -> Some "spawn" | EDone -> Some "done"
+  | EAccept -> Some "accept" | ESpawn -> Some "spawn" | ECleanup -> Some "cleanup" | EDone -> Some "done"
   | EBadCall -> None   (* an empty std::function being called is not observable by itself; the rethrow at join is *)
   | EJoinThrow -> Some "jointhrow"
 let obs s = String.concat " " (List.filter_map string_of_event (List.rev (log s)))
